@@ -84,6 +84,12 @@ PROPS = {
             U("c10", "TestRaceStress", T(2, 4, 300, shrinktime="20s"), T(20, 8, 2400, shrinktime="60s"), needs=["nodeexec.race"]),
         ],
     },
+    "C11": {
+        "level": "exploration",
+        "units": [
+            U("c11", "TestRequests", T(2, 16, 400, shrinktime="60s"), T(40, 16, 3000, shrinktime="240s"), needs=["nodeexec"]),
+        ],
+    },
     "C12": {
         "level": "exploration",
         "units": [
